@@ -98,6 +98,9 @@ C01Params ==
 C01ParamsQuick ==
     { <<"d2", k1, k2, "-", p>> :
         k1 \in Constructs, k2 \in {"block", "while", "forlist", "namedfn", "method", "closure"}, p \in Payloads }
+C01ParamsTiny ==
+    { <<"d2", k1, k2, "-", p>> :
+        k1 \in {"seq", "if", "forobject", "anonfn"}, k2 \in {"block", "while", "method"}, p \in Payloads }
 C01ParamsThorough ==
     C01Params
     \cup { <<"d3", k1, k2, k3, p>> :
